@@ -470,7 +470,7 @@ func genHostileFont(t *rapid.T) (*t1ref.RawFont, string) {
 	f := &t1ref.RawFont{Container: rapid.IntRange(0, 3).Draw(t, "container"), LenIVActual: 4}
 	hsbw := []byte{139, 139, 13}
 	label := ""
-	switch rapid.IntRange(0, 9).Draw(t, "hostilekind") {
+	switch rapid.IntRange(0, 10).Draw(t, "hostilekind") {
 	case 0:
 		label = "lenIV"
 		f.LenIVText = rapid.SampledFrom([]string{"-9223372036854775808", "-1099511627776", "-1", "0", "1", "8", "2147483648", "9223372036854775807", "4.5", "(x)", "/name", "[1]", "100000"}).Draw(t, "leniv")
@@ -509,6 +509,48 @@ func genHostileFont(t *rapid.T) (*t1ref.RawFont, string) {
 		}
 		code = append(code, 12, 6)
 		f.Glyphs = []t1ref.RawGlyph{{Name: ".notdef", Code: append(append([]byte{}, hsbw...), 14)}, {Name: "Aacute", Code: code}}
+	case 10:
+		// composites built from composites: glyph k is a seac whose base and
+		// accent are earlier composites (or itself, or later ones), named so
+		// that sorting by name gives the chain order; the outline of glyph k
+		// would hold 2^k copies of the first one
+		label = "seac-chain"
+		var names []string
+		codeOf := map[string]int{}
+		for c, n := range t1ref.StandardEncoding {
+			if n != ".notdef" && n != "" {
+				if _, dup := codeOf[n]; !dup {
+					names = append(names, n)
+					codeOf[n] = c
+				}
+			}
+		}
+		sort.Strings(names)
+		n := rapid.IntRange(2, len(names)-1).Draw(t, "chainlen")
+		start := rapid.IntRange(0, len(names)-n).Draw(t, "chainstart")
+		names = names[start : start+n]
+		line := append(append([]byte{}, hsbw...), t1ref.AppendNum(nil, 100, false)...)
+		line = append(append(line, t1ref.AppendNum(nil, 50, false)...), 21) // rmoveto
+		line = append(append(append(line, t1ref.AppendNum(nil, 30, false)...), t1ref.AppendNum(nil, 40, false)...), 5, 9, 14)
+		f.Glyphs = []t1ref.RawGlyph{{Name: ".notdef", Code: append(append([]byte{}, hsbw...), 14)}, {Name: names[0], Code: line}}
+		shape := rapid.IntRange(0, 3).Draw(t, "chainshape")
+		for k := 1; k < n; k++ {
+			base, accent := k-1, k-1
+			switch shape {
+			case 1:
+				accent = 0
+			case 2:
+				base, accent = k, k-1 // refers to itself
+			case 3:
+				base, accent = (k+1)%n, k-1 // refers forward (cycle at the end)
+			}
+			code := append([]byte{}, hsbw...)
+			for _, v := range []int{0, 10, 20, codeOf[names[base]], codeOf[names[accent]]} {
+				code = append(code, t1ref.AppendNum(nil, int32(v), false)...)
+			}
+			code = append(code, 12, 6)
+			f.Glyphs = append(f.Glyphs, t1ref.RawGlyph{Name: names[k], Code: code})
+		}
 	case 7:
 		label = "wrong-types"
 		f.Subrs = [][]byte{{11}}
@@ -546,7 +588,7 @@ func genHostileFont(t *rapid.T) (*t1ref.RawFont, string) {
 func TestP3Fonts(t *testing.T) {
 	rec := ev.New("C01", "fonts")
 	defer rec.Finish(t)
-	rec.Rule("type1.Read on structure-aware hostile fonts in all four containers (wrapped and encrypted correctly, so that they reach the charstring decoder): lenIV in {minint, -2^40, -1, 0..8, 100000, 2^31, maxint, non-integers}; charstrings and subroutines that are random sequences over all command codes (valid, reserved and undefined) and all number formats incl. truncated multi-byte numbers, every (argN, index) pair in -2..5 x -1..5 for callothersubr, pop on an empty stack, callsubr with out-of-range indices, div by zero, seac with arbitrary operands; subroutine call trees with fan-out 1-60 at depth 1-12 and recursive subroutines; Subrs/Encoding/FontMatrix/FontInfo/Private entries of the wrong type; two definefonts; hostile PostScript after definefont; plus valid fonts with random byte mutations, valid fonts whose clear-text decimal tokens are replaced by hostile constants, and raw random bytes. Child-process oracle as above. Non-trivial: the input got past the container into the interpreter (heuristic: the file was produced by the structured writer); distinct by bytes.")
+	rec.Rule("type1.Read on structure-aware hostile fonts in all four containers (wrapped and encrypted correctly, so that they reach the charstring decoder): lenIV in {minint, -2^40, -1, 0..8, 100000, 2^31, maxint, non-integers}; charstrings and subroutines that are random sequences over all command codes (valid, reserved and undefined) and all number formats incl. truncated multi-byte numbers, every (argN, index) pair in -2..5 x -1..5 for callothersubr, pop on an empty stack, callsubr with out-of-range indices, div by zero, seac with arbitrary operands; chains of 2-148 composites each built from earlier composites, from itself or from later ones (a composite's outline would double at every level); subroutine call trees with fan-out 1-60 at depth 1-12 and recursive subroutines; Subrs/Encoding/FontMatrix/FontInfo/Private entries of the wrong type; two definefonts; hostile PostScript after definefont; plus valid fonts with random byte mutations, valid fonts whose clear-text decimal tokens are replaced by hostile constants, and raw random bytes. Child-process oracle as above. Non-trivial: the input got past the container into the interpreter (heuristic: the file was produced by the structured writer); distinct by bytes.")
 	var cases []*hcase
 	ev.SetupRapid(10000, 320000)
 	rapid.Check(t, func(t *rapid.T) {
